@@ -1,6 +1,7 @@
 import BlugeProofs.C07.Witness
 import BlugeProofs.C07.PlanSeg
 import BlugeProofs.C07.PhrasePaths
+import BlugeProofs.C07.Norm
 import BlugeGen.C07
 /-! # C07 — every query returns exactly the documents its meaning selects
 
@@ -217,6 +218,30 @@ theorem C07_exact_seg_partial {sn : SnapLayout} (hsn : offsetsOK 0 sn = true) {i
   intro x
   rw [h1.1, h2]
   exact mem_denote
+
+/-- **C07_exact_repaired_partial**: the searcher tree the CURRENT code builds (`compile idx q.norm`: after the
+repairs fd50aeb / a584889 an inverted term range and a boolean that demands should clauses it does not have
+are `MatchNoneSearcher`s) returns exactly `denote idx q` for EVERY query in which each boolean has a clause
+(`BooleanQuery.Validate`) — the shapes that `Query.WF` had to exclude from `C07_exact_partial` are covered.
+Leaves are the multi-segment postings iterator machines over the snapshot layout. -/
+theorem C07_exact_repaired_partial {sn : SnapLayout} (hsn : offsetsOK 0 sn = true) {idx : Index} {W : Nat}
+    (hwf : idx.WF sn.total) (q : Query) (hq : q.hasClauses = true)
+    (hok : (compile idx q.norm).okB sn.total W = true) :
+    (compile idx q.norm).runSeg sn W = denote idx q ∧ ((compile idx q.norm).runSeg sn W).Pairwise (· < ·) ∧
+    (∀ x, x ∈ (compile idx q.norm).runSeg sn W ↔ ∃ d, (x, d) ∈ idx ∧ sat d q = true) := by
+  have h := C07_exact_seg_partial hsn hwf q.norm (wf_norm q hq) hok
+  rw [denote_norm] at h
+  refine ⟨h.1, h.2.1, ?_⟩
+  intro x
+  rw [h.1]
+  exact mem_denote
+
+example : (Query.bool [.term "t" "x"] [] [] 1).hasClauses = true ∧
+    (Query.bool [.term "t" "x"] [] [] 1).norm = .none ∧
+    (Query.multi "t" (.range (some "d") (some "abd") false false)).norm = .none := by
+  refine ⟨by simp [Query.hasClauses], by simp [Query.norm], ?_⟩
+  simp only [Query.norm, Matcher.regular]
+  decide
 
 /-! ## Gen: the constants and guards of /repo's CURRENT source (lean/BlugeGen/C07.lean, regenerated by
 go/extract/c07.go on every run) against the values the model uses -/
